@@ -34,8 +34,8 @@ def _lookup(fsid):
     return _REG[fsid]
 
 
-FAULT_KINDS = ('eio', 'enospc_partial', 'eio_partial', 'eio_close', 'crash',
-               'interrupt')
+FAULT_KINDS = ('eio', 'enospc_partial', 'enospc_persistent', 'eio_partial',
+               'eio_close', 'crash', 'interrupt')
 
 _PKG_FILES = ('api.py', 'writer.py', 'core.py', 'util.py', 'schema.py',
               'dataframe.py', 'json.py', 'compression.py', 'encoding.py',
@@ -220,6 +220,7 @@ class SimFS(AbstractFileSystem):
         self.profile = profile          # 'posix' | 'objstore'
         self.strict_rename = strict_rename
         self.files = {}                 # path -> bytearray
+        self.mtimes = {}                # path -> seq of last modification
         self.dirs = {''}
         self.log = []                   # [seq, op, path, detail, site]
         self.seq = 0
@@ -239,7 +240,9 @@ class SimFS(AbstractFileSystem):
         self.rplan = {}                 # j -> 'eio_read'
         self.rlog = []                  # [j, op, path, mutating k so far, site]
         self.double = False             # arm an eio on the call after a fault
+        self._full = False              # device full: every write fails
         self._double_armed = False
+        self._double_wait = 0
         self.fault_rng = None
         self.fired = []                 # (k, kind, op, path, site)
         self.crashed = False
@@ -282,6 +285,10 @@ class SimFS(AbstractFileSystem):
             self.io_hook(op, path)
         self.seq += 1
         self.op_calls += 1
+        if op in ('write', 'truncate', 'close') or op.startswith('open:'):
+            self.mtimes[path] = self.seq
+        elif op == 'rename':
+            self.mtimes[detail['dst']] = self.seq
         detail['k'] = self.op_calls
         ev = [self.seq, op, path, detail, _site()]
         self.log.append(ev)
@@ -325,6 +332,7 @@ class SimFS(AbstractFileSystem):
             self.fired.append((('r', j), kind, op, path, site))
             if self.double:
                 self._double_armed = True
+                self._double_wait = int(self.double)
             raise OSError(errno.EIO, 'injected EIO at read-side call %d (%s)'
                           % (j, op), path)
 
@@ -333,7 +341,18 @@ class SimFS(AbstractFileSystem):
         partial write is to be applied before ENOSPC, else None."""
         k = self.op_calls
         kind = self.plan.get(k)
+        if kind is None and self._full and ev[1] in ('write', 'truncate'):
+            # the device is full from the first failure on: every later write
+            # fails too (opens, closes and removals still work)
+            ev[3]['fault'] = 'enospc(still full)'
+            self.fired.append((k, 'enospc(still full)', ev[1], ev[2], ev[4]))
+            raise OSError(errno.ENOSPC, 'injected ENOSPC (device still full) '
+                          'at call %d' % k, ev[2])
         if kind is None and self._double_armed:
+            # the second fault: on the n-th call after the first one
+            self._double_wait -= 1
+            if self._double_wait > 0:
+                return None
             self._double_armed = False
             kind = 'eio'
             ev[3]['fault'] = 'eio(second)'
@@ -348,6 +367,7 @@ class SimFS(AbstractFileSystem):
         self.fired.append((k, kind, ev[1], ev[2], ev[4]))
         if self.double:
             self._double_armed = True
+            self._double_wait = int(self.double)
         if kind == 'interrupt':
             # a cancellation delivered inside the call (KeyboardInterrupt):
             # the process lives on, nothing of this call took effect
@@ -356,6 +376,12 @@ class SimFS(AbstractFileSystem):
             self.crashed = True
             raise SimCrash('injected crash at call %d (%s %s)'
                            % (k, ev[1], ev[2]))
+        if kind == 'enospc_persistent':
+            self._full = True
+            if can_partial:
+                return self.fault_rng.randrange(0, nbytes) if nbytes else 0
+            raise OSError(errno.ENOSPC, 'injected ENOSPC at call %d' % k,
+                          ev[2])
         if kind in ('enospc_partial', 'eio_partial'):
             # the write stores a prefix of its buffer, then fails: disk full,
             # or a transient I/O error (the errno a caller may retry on)
@@ -375,6 +401,7 @@ class SimFS(AbstractFileSystem):
         self.rplan = {int(k): v for k, v in (rplan or {}).items()}
         self.track_reads = bool(track_reads or self.rplan)
         self.plan = dict(plan or {})
+        self._full = False
         self.double = double
         self._double_armed = False
         self.fault_rng = fault_rng
@@ -382,6 +409,7 @@ class SimFS(AbstractFileSystem):
 
     def end_op(self):
         self.plan = {}
+        self._full = False
         self.rplan = {}
         self.track_reads = False
         self.double = False
@@ -555,10 +583,15 @@ class SimFS(AbstractFileSystem):
             self._revent('info', path)
         return self._info(path)
 
+    def _mtime(self, path):
+        # logical clock: sequence number of the last event on the path
+        return float(self.mtimes.get(path, 0))
+
     def _info(self, path):
         if path in self.files:
             return {'name': path, 'size': len(self.files[path]),
-                    'type': 'file'}
+                    'type': 'file', 'mtime': self._mtime(path),
+                    'created': self._mtime(path)}
         if path in self.dirs:
             return {'name': path, 'size': 0, 'type': 'directory'}
         raise FileNotFoundError(errno.ENOENT, 'No such file', path)
